@@ -1,8 +1,10 @@
 (** C08 — Template inheritance resolves every block to its most-derived override.
     Only property theorems live here, each closed by [exact] and followed by
     [Print Assumptions].  Model and specification: Kernels/Inherit.v
-    ([render_name] is env.get_template(name).render() with
-    context_depth_limit = [limit]; [spec_inherit] is the reference page). *)
+    ([render_name limit sp ld name] is env.get_template(name).render() with
+    context_depth_limit = [limit] and suppress_blank_control_flow_blocks =
+    [sp]; [spec_inherit] is the reference page: a block tag is never blank,
+    with [sp] a body of whitespace and silent tags only contributes nothing). *)
 From LQ Require Import Base.Str Kernels.Inherit Proofs.Inherit_proofs.
 
 (** inherit_resolves_most_derived, guarded (see the refutation below): for
@@ -11,27 +13,27 @@ From LQ Require Import Base.Str Kernels.Inherit Proofs.Inherit_proofs.
     whatever the code produces -- a page, RequiredBlockError,
     TemplateInheritanceError, TemplateNotFoundError -- is what the
     specification defines, unless the context-depth limit stopped the render. *)
-Theorem c08_inherit_resolves_most_derived_partial : forall limit (ld : loader) name n rest r,
+Theorem c08_inherit_resolves_most_derived_partial : forall limit sp (ld : loader) name n rest r,
   assoc name ld = Some (Ext n :: rest) ->
-  render_name limit ld name = r -> r <> cde ->
-  exists f, spec_inherit f ld name = r /\ r <> OutOfFuel.
+  render_name limit sp ld name = r -> r <> cde ->
+  exists f, spec_inherit f sp ld name = r /\ r <> OutOfFuel.
 Proof. exact inherit_resolves_most_derived_partial. Qed.
 Print Assumptions c08_inherit_resolves_most_derived_partial.
 
 (** ... and conversely every answer of the specification is what the code
     renders once context_depth_limit exceeds the depth of the page: the
     limit never produces a different page. *)
-Theorem c08_inherit_spec_is_rendered : forall f (ld : loader) name n rest r limit,
+Theorem c08_inherit_spec_is_rendered : forall f sp (ld : loader) name n rest r limit,
   assoc name ld = Some (Ext n :: rest) ->
-  spec_inherit f ld name = r -> r <> OutOfFuel ->
+  spec_inherit f sp ld name = r -> r <> OutOfFuel ->
   f + 5 <= limit ->
-  render_name limit ld name = r.
+  render_name limit sp ld name = r.
 Proof. exact inherit_spec_is_rendered. Qed.
 Print Assumptions c08_inherit_spec_is_rendered.
 
 (** The specification is a (partial) function of the loader and the name. *)
-Theorem c08_spec_deterministic : forall f1 f2 ld name r1 r2,
-  spec_inherit f1 ld name = r1 -> spec_inherit f2 ld name = r2 ->
+Theorem c08_spec_deterministic : forall f1 f2 sp ld name r1 r2,
+  spec_inherit f1 sp ld name = r1 -> spec_inherit f2 sp ld name = r2 ->
   r1 <> OutOfFuel -> r2 <> OutOfFuel -> r1 = r2.
 Proof. exact spec_inherit_deterministic. Qed.
 Print Assumptions c08_spec_deterministic.
@@ -39,10 +41,10 @@ Print Assumptions c08_spec_deterministic.
 (** The unguarded statement is false on the unchanged code (defect 30):
     text before the leaf's extends tag is emitted. *)
 Theorem c08_inherit_resolves_most_derived_refuted :
-  exists limit (ld : loader) name leaf r,
+  exists limit sp (ld : loader) name leaf r,
     assoc name ld = Some leaf /\ ext_of leaf <> None /\
-    render_name limit ld name = r /\ r <> cde /\
-    forall f, spec_inherit f ld name <> r.
+    render_name limit sp ld name = r /\ r <> cde /\
+    forall f, spec_inherit f sp ld name <> r.
 Proof. exact inherit_resolves_most_derived_refuted. Qed.
 Print Assumptions c08_inherit_resolves_most_derived_refuted.
 
@@ -56,43 +58,43 @@ Proof. exact stacks_are_definitions. Qed.
 Print Assumptions c08_block_stacks_are_definitions.
 
 Theorem c08_required_unoverridden_rejected :
-  forall limit (ld : loader) name n rest f ch m d sup ts req body e its,
+  forall limit sp (ld : loader) name n rest f ch m d sup ts req body e its,
   6 <= limit -> assoc name ld = Some (Ext n :: rest) ->
   forallb endok_item (Ext n :: rest) = true ->
   spec_chain f ld [] (Ext n :: rest) = Ok ch ->
   defs ch m = d :: sup -> b_req d = true ->
   last ch [] = map Text ts ++ Blk m req body e :: its ->
-  render_name limit ld name = reqerr.
+  render_name limit sp ld name = reqerr.
 Proof. exact required_unoverridden_rejected. Qed.
 Print Assumptions c08_required_unoverridden_rejected.
 
-Theorem c08_duplicate_block_rejected : forall limit (ld : loader) name n rest t,
+Theorem c08_duplicate_block_rejected : forall limit sp (ld : loader) name n rest t,
   4 <= limit -> assoc name ld = Some (Ext n :: rest) ->
   on_chain ld (Ext n :: rest) t -> ~ NoDup (map b_name (find_blocks t)) ->
-  render_name limit ld name = tie.
+  render_name limit sp ld name = tie.
 Proof. exact duplicate_block_rejected. Qed.
 Print Assumptions c08_duplicate_block_rejected.
 
-Theorem c08_two_extends_rejected : forall limit (ld : loader) name n rest t,
+Theorem c08_two_extends_rejected : forall limit sp (ld : loader) name n rest t,
   4 <= limit -> assoc name ld = Some (Ext n :: rest) ->
   on_chain ld (Ext n :: rest) t -> 1 < length (find_exts t) ->
-  render_name limit ld name = tie.
+  render_name limit sp ld name = tie.
 Proof. exact two_extends_rejected. Qed.
 Print Assumptions c08_two_extends_rejected.
 
-Theorem c08_endblock_name_mismatch_rejected : forall limit (ld : loader) name n rest t,
+Theorem c08_endblock_name_mismatch_rejected : forall limit sp (ld : loader) name n rest t,
   4 <= limit -> assoc name ld = Some (Ext n :: rest) ->
   on_chain ld (Ext n :: rest) t -> forallb endok_item t = false ->
-  render_name limit ld name = tie.
+  render_name limit sp ld name = tie.
 Proof. exact endblock_name_mismatch_rejected. Qed.
 Print Assumptions c08_endblock_name_mismatch_rejected.
 
 (** Circular chains: for every loader, the walk ends within its fixed fuel
     ([length ld + 2] steps) with TemplateInheritanceError. *)
-Theorem c08_circular_chain_rejected_and_terminates : forall limit (ld : loader) name n rest,
+Theorem c08_circular_chain_rejected_and_terminates : forall limit sp (ld : loader) name n rest,
   4 <= limit -> assoc name ld = Some (Ext n :: rest) ->
   circular ld (Ext n :: rest) ->
-  render_name limit ld name = tie
+  render_name limit sp ld name = tie
   /\ build_block_stacks ld [] (Ext n :: rest) = tie.
 Proof. exact circular_chain_rejected_and_terminates. Qed.
 Print Assumptions c08_circular_chain_rejected_and_terminates.
